@@ -33,11 +33,17 @@ type Op struct {
 	Src  string `json:"src,omitempty"`
 	Ver  string `json:"version,omitempty"`
 	Path string `json:"path,omitempty"`
+	// Host of a find (default h)
+	Host string `json:"host,omitempty"`
 }
 
 func (o Op) String() string {
 	switch o.Kind {
 	case "find":
+		if o.Host != "" {
+			return "find(" + o.Host + o.Path + ")"
+		}
+
 		return "find(" + o.Path + ")"
 	case "delete":
 		return "delete(" + o.Src + ")"
@@ -115,6 +121,14 @@ var scenarios = []ScenarioDef{
 			{find("/x"), find("/b")}},
 		Final: []Op{find("/x"), find("/y"), find("/b"), find("/c")},
 	},
+	{
+		// two readers asking for different hosts (the matchers of a rule are shared by all requests)
+		Name: "S8-readers-with-different-hosts-during-an-update",
+		Init: []Op{{Kind: "add", Src: "A", Ver: "a1"}},
+		Threads: [][]Op{{{Kind: "update", Src: "A", Ver: "a2"}}, {{Kind: "find", Path: "/x", Host: "r1.example"}, {Kind: "find", Path: "/y", Host: "r9.other"}},
+			{{Kind: "find", Path: "/x", Host: "r2.example"}, {Kind: "find", Path: "/x", Host: "nope.example"}}},
+		Final: []Op{find("/x"), {Kind: "find", Path: "/y", Host: "r3.example"}},
+	},
 }
 
 func x(cond bool, a, b string) string {
@@ -154,7 +168,8 @@ func ruleSet(src, ver string) *rulecfg.RuleSet {
 			// factory between concurrently loading providers is in reach of the race pass)
 			Matcher: rulecfg.Matcher{
 				Routes: []rulecfg.Route{{Path: d.path}}, Scheme: d.scheme, Methods: []string{"GET", "POST"},
-				Hosts: []rulecfg.HostMatcher{{Type: "exact", Value: "h"}, {Type: "glob", Value: "*.internal"}},
+				Hosts: []rulecfg.HostMatcher{{Type: "exact", Value: "h"}, {Type: "glob", Value: "*.internal"},
+					{Type: "regex", Value: `^r[0-9]\.example$`}},
 			},
 			Execute: []config.MechanismConfig{{"authenticator": x(strings.HasSuffix(d.id, "!"), "does-not-exist", "anon")}},
 		})
@@ -175,7 +190,7 @@ func (w *world) do(op Op) string {
 		err = w.proc.OnDeleted(ruleSet(op.Src, "a1"))
 	case "find":
 		// scheme matchers make changed rules distinguishable by hash only; request scheme http matches "" and "http"
-		ctx := hx.NewCtx("GET", "http://h"+op.Path)
+		ctx := hx.NewCtx("GET", "http://"+x(op.Host == "", "h", op.Host)+op.Path)
 
 		ru, ferr := w.repo.FindRule(ctx)
 
